@@ -78,6 +78,29 @@ def reply(text, args):
     return "ok %s %s" % (enc(text), enc_args(args))
 
 
+def norm_sql(text):
+    """SQL text up to layout: runs of white space (blanks, line breaks, indentation) count as one blank, none at the ends,
+    none next to parentheses and commas.  A statement re-indented or re-wrapped in the Python source is the same
+    statement."""
+    import re
+    t = re.sub(r"\s+", " ", text).strip()
+    t = re.sub(r"\(\s+", "(", t)
+    t = re.sub(r"\s+\)", ")", t)
+    t = re.sub(r"\s*,\s*", ",", t)
+    return t
+
+
+def norm_reply(r):
+    """a reply `ok <encoded statement> <args> ...` with the statement text normalised by norm_sql"""
+    w = r.split(" ")
+    if w[0] != "ok" or len(w) < 3:
+        return r
+    try:
+        return " ".join(["ok", enc(norm_sql(dec(w[1])))] + w[2:])
+    except Exception:
+        return r
+
+
 def show_reply(r):
     """decode a reply for the disagreement report"""
     w = r.split(" ")
@@ -257,7 +280,7 @@ def run_make_query(ctx, res, r):
         return
     for c, m, e, kw in zip(cmds, out[:len(cmds)], exp, inp):
         res.corr_checked += 1
-        if m != e:
+        if norm_reply(m) != norm_reply(e):
             res.corr_disagreements.append(("make_query text+args", repr(kw)[:900], show_reply(m)[:700], show_reply(e)[:700]))
     for c, m, e in zip(set_cmds, out[len(cmds):], set_exp):
         res.corr_checked += 1
@@ -531,12 +554,12 @@ def run_db(ctx, res, r):
     for c, m, (kind, e, extra), (comp, inp) in zip(cmds, out, exp, tags):
         res.corr_checked += 1
         if kind == "exact":
-            if m != e:
+            if norm_reply(m) != norm_reply(e):
                 res.corr_disagreements.append((comp, inp[:1200], show_reply(m)[:700], show_reply(e)[:700]))
             continue
         got, cols, byid = extra
         w = m.split(" ")
-        if w[0] != "ok" or len(w) != 4 or " ".join(w[:3]) != e:
+        if w[0] != "ok" or len(w) != 4 or norm_reply(" ".join(w[:3])) != norm_reply(e):
             res.corr_disagreements.append((comp + " (evaluated statement)", inp[:1200], show_reply(m)[:700], show_reply(e)[:700]))
             continue
         if kind == "count":
@@ -571,6 +594,7 @@ def run_sqltext(ctx, res):
         "SQL text layer: parameters are Python int / str; featuretype / order_by collections are lists or tuples of str",
         "SQL text layer: results under ORDER BY are compared up to the order among ties (sqlite's depends on the index scanned)",
         "SQL text layer: str.lower() is modelled on ASCII; int() on ASCII digits (Str.parseInt?)",
+        "SQL text layer: statement texts are compared up to layout (runs of white space, blanks next to parentheses and commas)",
     ]
     return res
 
